@@ -2,6 +2,7 @@
 package main
 
 import (
+	"encoding/base64"
 	"encoding/json"
 	"fmt"
 	"io"
@@ -56,6 +57,24 @@ func add(s *cases.Set, b []byte, kind string) {
 	q, o, ok := decode(b)
 	noise.Step(nr)
 	reused.Decode(s, nr, b, o)
+	// the same frame received as text (base64): UnmarshalText must give what UnmarshalBinary gives
+	func() {
+		defer func() {
+			if rec := recover(); rec != nil {
+				s.Fail(cases.GoFail{Key: fmt.Sprintf("text-path-panic:%x", b), What: fmt.Sprintf("UnmarshalText panics: %v", rec), Replay: map[string]interface{}{"bytes": fmt.Sprintf("%x", b)}})
+			}
+		}()
+		txt := []byte(base64.StdEncoding.EncodeToString(b))
+		var qt lorawan.PHYPayload
+		ot := cq.Err
+		if err := qt.UnmarshalText(txt); err == nil {
+			ot = cq.Ok(framefmt.Phy(qt, framefmt.DecodedFOptsLen(b)))
+		}
+		if ot != o {
+			s.Fail(cases.GoFail{Key: fmt.Sprintf("text-path-differs:%x", b), What: "UnmarshalText of the base64 text gives " + ot + ", UnmarshalBinary of the bytes " + o,
+				Replay: map[string]interface{}{"bytes": fmt.Sprintf("%x", b), "text": string(txt)}})
+		}
+	}()
 	ore, oagain := cq.Err, cq.Err
 	if ok {
 		// a received frame is logged before it is forwarded: rendering must not change it
@@ -134,6 +153,18 @@ func main() {
 		}
 	}
 	s.Exhaustive("MACPayload decoder branches: 4 MTypes x FOptsLen 0..15 x length offsets -1..3 x FPort {0,7}")
+	// frames whose base64 text consists of hex digits only (the text could be mistaken for another encoding)
+	hexd := "0123456789abcdefABCDEF"
+	for i := 0; i < n/2; i++ {
+		k := 4 * (2 + r.Intn(8))
+		txt := []byte{"02468ACEace4"[r.Intn(12)], hexd[r.Intn(len(hexd))]}
+		for len(txt) < k {
+			txt = append(txt, hexd[r.Intn(len(hexd))])
+		}
+		if bb, err := base64.StdEncoding.DecodeString(string(txt)); err == nil {
+			add(s, bb, "hexlike-base64-text")
+		}
+	}
 	for mh := 0; mh < 256; mh++ {
 		for _, l := range []int{5, 12, 19, 23, 24, 17, 33} {
 			b := r.Bytes(l)
